@@ -1364,7 +1364,7 @@ m("C15", "published-before-exec", LO,
                 sys.modules[base] = module
                 loader.exec_module(module)''')
 m("C15", "body-not-hashed", TP,
-  "        sha.update(body.encode('utf-8', 'ignore'))\n", "")
+  "        sha.update(body.encode('utf-8', 'surrogatepass'))\n", "")
 m("C15", "key-of-other-names", TP,
   "        digest = self.digest(body, names)\n        program = self._cook(body, digest, names)",
   "        digest = self.digest(body, ())\n        program = self._cook(body, digest, names)")
@@ -1932,3 +1932,19 @@ m("C12", "bases-not-linearisable", "utils.py",
 m("C03", "lookahead-class-letters", "parser.py",
   r"""    r'(?P<simple_value>(?![ \n\t\r]*=)))',""",
   r"""    r'(?P<simple_value>(?![ \\n\\t\\r]*=)))',""")
+m("C15", "class-name-after-body", "template.py",
+  '''        sha.update(class_name + b'\\n')
+        sha.update(filename.encode('utf-8', 'surrogatepass') + b'\\n')
+        sha.update(body.encode('utf-8', 'surrogatepass'))''',
+  '''        sha.update(filename.encode('utf-8', 'surrogatepass') + b'\\n')
+        sha.update(body.encode('utf-8', 'surrogatepass'))
+        sha.update(class_name)''')
+m("C15", "body-encoding-ignores-errors", "template.py",
+  "        sha.update(body.encode('utf-8', 'surrogatepass'))",
+  "        sha.update(body.encode('utf-8', 'ignore'))")
+m("C15", "content-type-left-out-of-key", ZT,
+  "            'content_type',\n", "")
+m("C15", "stable-name-for-closures", ZT,
+  '''    if module and name and '<' not in name and \\
+            getattr(value, '__closure__', None) is None:''',
+  '''    if module and name:''')
